@@ -116,4 +116,14 @@ theorem C10_generated_decoder_parts_never_panic (ext : Go.Ext) (h : Gen.Decode.b
 /-- the envelope decoder does rely on its caller: handed a count of 2 with fewer arguments it would index out of range -/
 example : Gen.Decode.baseHandler.handleBase64 { parseFloat := fun _ => (0, none) } {} [] 2 = Outcome.panic "index out of range" := by decide
 
+/-- **the command decoder of the working tree decodes what the model decodes**: started on a handler that has recorded
+    nothing, the translated `handleCommand` invokes the command callback exactly once with the model's command name,
+    argument count, arguments and line context and hands `handleOptions` a map that answers like the model's option
+    list — or, where the model reports an error, starts nothing (`GenDecode.CmdMatches`).  The theorems of C12 about the
+    model's decoder (`C12_roundtrip`: what the client encodes the server decodes) thereby speak about the server code as
+    it is now. -/
+theorem C10_generated_command_decoder_refines_model (ext : Go.Ext) (env : Env) (he : GenOptions.ExtIs ext env) (cmd : Bytes) :
+    GenDecode.CmdMatches (decodeCommand env cmd) (Gen.Decode.baseHandler.handleCommand ext {} cmd) :=
+  GenDecode.handleCommand_refines ext env he cmd
+
 end Dtail.C10
